@@ -116,6 +116,7 @@ func runConcurrent(c *rig.Ctx, w *world, cc CCase) *rig.Failure {
 	release := make(chan struct{})
 	start := make(chan struct{})
 	var wg sync.WaitGroup
+	staged, second := cc.World == "options", make(chan struct{})
 	for i := range cc.Burst {
 		ids[i] = nextID()
 		scripts[i] = &script{up: cc.Burst[i].Up, wait: release, got: make(chan struct{})}
@@ -123,8 +124,29 @@ func runConcurrent(c *rig.Ctx, w *world, cc CCase) *rig.Failure {
 		go func(i int) {
 			defer wg.Done()
 			<-start
+			if staged && cc.Burst[i].Req.Proto == "h2" {
+				<-second
+			}
 			obs[i] = w.roundTrip(cc.Burst[i], ids[i], scripts[i])
 		}(i)
+	}
+	if staged {
+		// staged start: the HTTP/1.1 clients first; once their requests are inside the upstream (in flight in the gateway) the
+		// HTTP/2 clients follow, so these meet a gateway that IS under load pressure whatever the scheduler does. One-sided:
+		// after 2 s everybody starts anyway.
+		go func() {
+			deadline := time.After(2 * time.Second)
+			for i := range cc.Burst {
+				if cc.Burst[i].Req.Proto == "h2" {
+					continue
+				}
+				select {
+				case <-scripts[i].got:
+				case <-deadline:
+				}
+			}
+			close(second)
+		}()
 	}
 	// the upstream answers everybody together, once every request has arrived (or after 5 s: a request the gateway did not
 	// forward never arrives; it is judged like the others)
